@@ -577,7 +577,8 @@ func runC14(c *ctx) {
 		}
 	}
 	c.exhaustive(fmt.Sprintf("all_patterns_len_le_%d_over_24_symbols", maxLen), true)
-	special := []string{"", `[\x0100]`, `[^\x0100]`, `[\x80]`, `[\x0080]`, `[^\x80]`, `[\x7E-\x82]`, `[\x00-\xFF]`, `[\p{Latin}]`, `[^\p{Greek}a]`, `\p{Emoji}`, `\P{Lu}`, `[\P{L}]`, `\xFFFFFFFF`, `[\xFFFFFFFF]`, `\x0010FFFF`, `\x00110000`,
+	special := []string{`[\x80000000-\x7F]`, `[\x9ABCDEF0-z]`, `[\x7F-\x80000000]`, `[a-\xFFFFFFFF]`, `[\xFFFFFFFF-a]`, `[\x80000000-\xFFFFFFFF]`, `\x80000000+`, `[^\x80000000-\x7F]`, `[\x7FFFFFFF-\x80]`, `[\x00110000-\x41]`, `[\x0-\x7F]`,
+		"", `[\x0100]`, `[^\x0100]`, `[\x80]`, `[\x0080]`, `[^\x80]`, `[\x7E-\x82]`, `[\x00-\xFF]`, `[\p{Latin}]`, `[^\p{Greek}a]`, `\p{Emoji}`, `\P{Lu}`, `[\P{L}]`, `\xFFFFFFFF`, `[\xFFFFFFFF]`, `\x0010FFFF`, `\x00110000`,
 		`[\x7FFFFFFF-\xFFFFFFFF]`, `\x80`, `\xFF+`, `é`, `[é]`, "a\x00b", "\xff", "[\xc3]", `a{64}`, `[0-9a-f]{64}`, `a{100}`, `(ab){40}`, `(a|b){65}`, `a{0}`, `(a{0}){0}`, `(((((a)))))`, `a{1,0}`, `a{00}`, `a{,3}`, `[]`, `[^]`, `[a-]`, `[-a]`, `()`, `(|)`, `a||b`, `^`, `$`, `^$`, `^^a`, `a$$`, `\`, `\x`, `\x4`, `\xG0`, `\p`, `\p{`, `\p{Foo}`, `[:alpha:`, `[[:alpha:]]`, `[[:nope:]]`,
 		strings.Repeat("(", 3000) + "a" + strings.Repeat(")", 3000), strings.Repeat("a|", 1200) + "a", strings.Repeat("a?", 60), strings.Repeat("[a-z]", 70)}
 	for i, p := range special {
@@ -661,6 +662,17 @@ func c14CLI(c *ctx) {
 	}
 	var cases []tc
 	add := func(wantErr, any bool, args ...string) { cases = append(cases, tc{args, wantErr, any}) }
+	// every flag combination on specifications with a pattern token that string literals shadow completely, with a token
+	// that is never used, and with no token at all
+	shadowed := write("shadowed.ebnf", "grammar shadowed;\nBOOL = /true|false/\nstart = BOOL | \"true\" | \"false\";\n")
+	unused := write("unused.ebnf", "grammar unusedtok;\nNEVER = /n+/\nstart = \"a\";\n")
+	noterm := write("noterm.ebnf", "grammar noterm;\nstart = ;\n")
+	for fi, fs := range [][]string{{}, {"-debug"}, {"-verbose"}, {"-debug", "-verbose"}} {
+		for si, sp := range []string{shadowed, unused, noterm, valid} {
+			args := append(append([]string{}, fs...), "-out", dir, "-name", fmt.Sprintf("fl%d_%d", fi, si), sp)
+			add(false, true, args...)
+		}
+	}
 	for _, f := range []string{empty, garbage, syntax, lexical, illformed, conflict, overlap, degenerate, big, filepath.Join(dir, "missing.ebnf"), dir} {
 		add(true, false, "-out", dir, f)
 		add(true, false, "-out", dir, "-name", "pkgx", f)
